@@ -23,7 +23,7 @@ META = dict(
     outside=['class values above 2**17 - 1 (lookup-table size)'],
     stubs=['symbolic clock', 'numba kernels interpreted'],
 )
-CLASS_LISTS = [[0, 1, 2], [2, 0, 1], [1, 2, 0], [5, 0, 300], [300, 0, 5], [0, 2, 1, 5], [0, 7, 1, 3], [2, 1], [1, 2]]
+CLASS_LISTS = [[0, 1, 2], [2, 0, 1], [1, 2, 0], [5, 0, 300], [300, 0, 5], [0, 2, 1, 5], [0, 7, 1, 3], [2, 1], [1, 2], [0, 1, 2, 9]]
 PATTERNS = [[[0, 1], [2, 5], [1, 1], [300, 0]], [[5, 5], [0, 2], [7, 300], [1, 0]], [[2, 2], [2, 1], [0, 0], [1, 5]]]
 
 
@@ -116,7 +116,7 @@ def job_value(job, res):
                 del CTX.side[mark:]
         # (b)/(c) same classes in another order, or extra unused classes: results unchanged
         groups = [([0, 1, 2], [2, 0, 1]), ([0, 1, 2], [1, 2, 0]), ([5, 0, 300], [300, 0, 5]), ([2, 1], [1, 2])]
-        supers = [([0, 1, 2], [0, 2, 1, 5])] if not any(5 in r for r in lab) else []
+        supers = ([([0, 1, 2], [0, 2, 1, 5])] if not any(5 in r for r in lab) else []) + [([0, 1, 2], [0, 1, 2, 9])]          # 9 occurs in no label pattern: an unused class
         for a, b in groups + supers:
             if tuple(a) in results and tuple(b) in results:
                 ra, rb = results[tuple(a)], results[tuple(b)]
